@@ -61,10 +61,21 @@ def run(case):
     obs = {}
     cls = build(case)
     awaits = case['awaits']
-    with Exec({'program': {'steps': []}}, attach_listener=False) as ex:
+    own_loop = bool(case.get('own_loop'))
+    with Exec({'program': {'steps': []}, 'decoy_loop': own_loop}, attach_listener=False) as ex:
         w = ex.world
-        with ex.loop.as_running():
+        if own_loop:
+            # the chain and the processes it is going to wait for are constructed for a loop of their own while no loop
+            # is running (the thread's default loop is another one, which never runs)
+            from ..programs import make_class
+
             proc = cls(pid=1, loop=ex.loop)
+            for i, aw in enumerate(awaits):
+                if aw['kind'] == 'child' and case.get('prebuilt'):
+                    w.extra.setdefault('prechildren', {})[CHILD_PID + i] = make_class(child_program(aw['outcome']))(pid=CHILD_PID + i, loop=ex.loop)
+        else:
+            with ex.loop.as_running():
+                proc = cls(pid=1, loop=ex.loop)
         ex.attach(proc)
         ex.sample('start')
         ex.launch_task()
@@ -115,6 +126,8 @@ def run(case):
         obs['entries'] = [e for e in w.trace.get(1, []) if e['k'] == 'enter']
         obs['to_context_keys'] = list(w.extra.get('to_context_keys', {}).get(1, []))
         obs['views'] = ex.views()
+        if obs['views'].get('decoy_scheduled'):
+            obs['left_loop'] = obs['views']['decoy_scheduled']
         obs['set_excs'] = set_excs
         obs['escapes'] = [(c['message'][:70], c['exc_type'], c['exc_str']) for c in ex.loop.escapes()]
         obs['calls'] = [dict((k, v) for k, v in r.items() if not k.startswith('_')) for r in w.futs]
@@ -148,6 +161,8 @@ def judge(case, obs, v):
     bypassed = sorted(k for k in registered if k not in obs.get('to_context_keys', []))
     if bypassed:
         v('to-context-bypassed', f'awaitables {bypassed} were registered without going through the (overridable) to_context() method')
+    if obs.get('left_loop'):
+        v('left-its-loop', f"{obs['left_loop']} callback(s) were scheduled on the thread's default loop instead of the loop the chain and its children were given")
     if not obs['all_completed']:
         return 'incomplete'
     first_failure = obs['first_failure']
@@ -254,6 +269,17 @@ def enumerate_barrier(nmax):
                         sched.append(['tick', gap])
                     sched.append(['complete', i])
                 yield {'kind': 'wc_await', 'awaits': aws, 'schedule': sched, 'dup_key': True}
+    # chain and awaited processes live on a loop of their own (not the thread's default loop); children launched by the
+    # step or constructed beforehand, outside any running loop
+    for kinds in itertools.product(KINDS_HOW, repeat=2):
+        for outcomes in ([['value', 1], ['value', 2]], [['value', 1], ['exc', 'e']], [['kill', 'kt'], ['value', 2]]):
+            if any(o[0] == 'kill' and k[0] != 'child' for o, k in zip(outcomes, kinds)):
+                continue
+            for order in itertools.permutations(range(2)):
+                for prebuilt in (False, True):
+                    if prebuilt and not any(k[0] == 'child' for k in kinds):
+                        continue
+                    yield {'kind': 'wc_await', 'own_loop': True, 'prebuilt': prebuilt, 'awaits': _awaits(2, kinds, outcomes), 'schedule': [s for i in order for s in (['tick', 1], ['complete', i])]}
     # pre-completed items and re-assignment
     for order in itertools.permutations(range(2)):
         for reassign in (None, {'key': 'k0', 'value': 'new'}, {'key': 'k2', 'value': 'new'}):
@@ -319,7 +345,11 @@ def strategy_cases(draw, with_pause, failing):
     if draw(st.integers(0, 3)) == 0:
         reassign = {'key': draw(st.sampled_from([a['key'] for a in aws] + ['fresh'])), 'value': 'new'}
     shape = draw(st.sampled_from(['flat', 'flat'] + list(SHAPES)))
-    return {'kind': 'wc_await', 'shape': shape, 'awaits': aws, 'reassign': reassign, 'schedule': sched}
+    case = {'kind': 'wc_await', 'shape': shape, 'awaits': aws, 'reassign': reassign, 'schedule': sched}
+    if draw(st.integers(0, 3)) == 0:
+        case['own_loop'] = True
+        case['prebuilt'] = draw(st.booleans())
+    return case
 
 
 def enumerate_failing(nmax=2):
